@@ -132,6 +132,29 @@ def main():
                 reply({"ok": True, "report": rep, "t": time.time() - t})
             elif op == "lazy":
                 reply({"ok": True, "report": lazy_digest(cmd["arch"])})
+            elif op == "mutate":
+                # what `--import` or a what-if study of a library user does: change entries of ONE MachineModel
+                # instance through the public API.  The model file is untouched, so later loads must not see it.
+                import osaca.osaca as O
+                from osaca.semantics.hw_model import MachineModel
+
+                mm = MachineModel(arch=cmd["arch"])
+                parser = O.get_asm_parser(cmd["arch"])
+                n = 0
+                for k in cmd["kernels"]:
+                    with open(k) as f:
+                        forms = parser.parse_file(f.read())
+                    for form in forms:
+                        if form.mnemonic is None:
+                            continue
+                        e = mm.get_instruction(form.mnemonic, form.operands)
+                        if e is None:
+                            continue
+                        mm.set_instruction(form.mnemonic, form.operands, latency=float(e.latency or 0) + 20.0,
+                                           port_pressure=e.port_pressure, throughput=e.throughput, uops=e.uops)
+                        n += 1
+                mm.add_port("verif-extra-port")
+                reply({"ok": True, "mutated": n})
             elif op == "refpickle":
                 # reference runs: the data a cache file for this model must hold
                 from osaca.semantics.hw_model import MachineModel
